@@ -75,7 +75,8 @@ class Funnel:
         self.decls = leaf_decls(self.vars)
         self.minmax, self.n_obj = minmax, n_obj
         # objective values: finite, or (f_kind="ext") also +inf / -inf - "death penalty" objectives are legal
-        self.F = [(sym.ext_real if f_kind == "ext" else sym.real)(f"F{j}") for j in range(n_obj)]
+        mkF = {"real": sym.real, "ext": sym.ext_real, "int": lambda n: sym.integer(n, -3, 3)}[f_kind]
+        self.F = [mkF(f"F{j}") for j in range(n_obj)]
         if n_obj == 1 and weights != "list1":
             self.w = None
         else:
